@@ -11,7 +11,7 @@ VARIABLES n,       \* commands so far
           hist     \* the session so far, with the model's prediction for every command (outside the VIEW)
 mcvars == <<fvars, n, hist>>
 
-SymSmall == {"a", "f", "nx", "rootbar", ".", "..", "", "nul"}
+SymSmall == {"a", "e", "f", "nx", "rootbar", ".", "..", "", "nul"}
 SymQuick == SymSmall \cup {"root"}
 SymFull  == SymQuick \cup {"bs", "pct2e", "pct2f", "xff", "nx.ext"}
 MCNul == {"nul"}
@@ -22,7 +22,8 @@ SeqsUpTo(S, k) == IF k = 0 THEN {<<>>} ELSE LET R == SeqsUpTo(S, k - 1) IN R \cu
 Paths == SeqsUpTo(Symbols, MaxLen) \ {<<>>}
 
 WdAll == {<<>>, <<"a">>, <<"a", "a">>}
-D0 == {<<>>, <<"a">>, <<"a", "a">>}
+WdRoot == {<<>>}
+D0 == {<<>>, <<"a">>, <<"a", "a">>, <<"a", "e">>}       \* a/e is empty
 F0 == {<<"f">>, <<"nx.ext">>, <<"a", "f">>, <<"a", "index.html">>, <<"a", "a", "f">>}
 
 (* Sessions start in one of the directories Wd0s (as if a successful "CWD /<wd0>" had just been handled --
@@ -54,8 +55,6 @@ View == <<cfg, mode, wd, rn, dirs, files, anon, n>>
 
 (* The property on the design: whatever a command touches is inside the root. *)
 StepConfined == [][ \A i \in 1..Len(last'.acc) : Inside(LocOf(last'.acc[i][2])) ]_mcvars
-(* ... and it is a step the Abs layer allows. *)
-StepAllowed == [][ FtpCmd(last'.acc, <<>>) \/ ~Confined(last'.acc, <<>>) ]_mcvars
 (* spec -> code: every transition in which the model touches the tree or answers positively is printed as a
    session (the commands leading to the state it starts from, then the command) for replay on the real server. *)
 EmitCover == ~(last'.ok \/ last'.acc # <<>>) \/ PrintT(<<"BEH", ToJson([anon |-> anon, hist |-> hist'])>>)
